@@ -105,9 +105,15 @@ func vSymDefault(t int, tag string) vVal {
 	return vVal{}
 }
 
+// vUsePtrAPI selects the XxxPtr(&v, ...) flavour of the declaration functions.
+var vUsePtrAPI bool
+
 // vDeclareTyped declares one option (-x/--xx) or argument (X) of type t and returns a
 // reader of its current value as a list.
 func vDeclareTyped(app *Cli, t int, asOpt bool, def []vVal, env string, user *bool) func() []vVal {
+	if vUsePtrAPI {
+		return vDeclareTypedPtr(app, t, asOpt, def, env, user)
+	}
 	switch t {
 	case tBool:
 		var p *bool
@@ -257,6 +263,8 @@ func vRefValue(t int, cli []string, envs []string, def []vVal) (val []vVal, setB
 func H_prec() {
 	t := vParamInt("type")
 	asOpt := vParamInt("opt") == 1
+	vUsePtrAPI = vParamInt("ptr") == 1
+	sibling := vParamInt("sibling") == 1 // a second parameter of the same type declared with the same default
 	check := vParamString("check")
 	envLen := vParamInt("envLen")
 	cliLen := vParamInt("cliLen")
@@ -295,18 +303,33 @@ func H_prec() {
 		cli = append(cli, p)
 	}
 	var argv []string
+	usedFold := false
 	if asOpt {
 		for _, p := range cli {
-			separate := false
+			form := 0 // --xx=p
 			if len(p) == 0 {
-				separate = true
-			} else if t != tBool && p[0] != '-' && vChoice("separate", 2) == 1 {
-				separate = true
+				form = 1 // --xx p (separate)
+			} else if t != tBool {
+				form = vChoice("form", 3)
+				if form == 1 && p[0] == '-' {
+					form = 0
+				}
+				if form == 2 && usedFold {
+					form = 0 // the flag -w may occur once
+				}
+				if form == 2 {
+					usedFold = true
+				}
 			}
-			if separate {
-				argv = append(argv, "--xx", p)
-			} else {
+			switch form {
+			case 0:
 				argv = append(argv, "--xx="+p)
+			case 1:
+				argv = append(argv, "--xx", p)
+			case 2:
+				// folded behind a flag, value attached: everything after the letter is the value,
+				// a leading '=' included
+				argv = append(argv, "-wx"+p)
 			}
 		}
 	} else {
@@ -330,12 +353,21 @@ func H_prec() {
 	app.ErrorHandling = policy
 	var user bool
 	read := vDeclareTyped(app, t, asOpt, def, strings.Join(envNames, " "), &user)
+	var readSibling func() []vVal
+	if sibling {
+		vUsePtrAPI = false
+		var su bool
+		sapp := App("sib", "") // declared on another application of the same process, same default data
+		readSibling = vDeclareTyped(sapp, t, asOpt, def, "", &su)
+		_ = sapp
+	}
 	if asOpt {
-		app.Spec = "[--xx...]"
+		app.Bool(BoolOpt{Name: "w"}) // a flag the valued option can be folded behind
+		app.Spec = "[--xx...] [-w]"
 		if vParamInt("withArg") == 1 {
 			// a positional argument that always converts follows the option values
 			app.String(StringArg{Name: "Y"})
-			app.Spec = "[--xx...] [Y]"
+			app.Spec = "[--xx...] [-w] [Y]"
 			argv = append(argv, "pos")
 		}
 	} else {
@@ -415,11 +447,22 @@ func H_prec() {
 	} else {
 		vCover("from-default")
 	}
+	if sibling {
+		// the sibling got nothing from anywhere: it still holds the declared default
+		vAssert(vValsEq(t, readSibling(), def), "C06: a parameter that received nothing no longer holds its declared default (default data shared with another parameter was written through)")
+	}
 	switch check {
 	case "C15":
 		vObserve("user", gotUser)
 		vAssert(gotUser == wantUser, "C15: SetByUser must be true exactly when the command line supplied a value")
 	case "C13":
+		// an environment value that strconv rejects (wholly or in one element) binds nothing
+		if len(cli) == 0 && defAfterInvalid && !vValsEq(t, got, def) {
+			if vMulti(t) && len(got) == 0 && vKnownFinding("F5") {
+				return
+			}
+			vAssert(false, "C13: an environment value that strconv rejects must not be bound, not even partly")
+		}
 		// the bound value equals strconv's parse (command line or environment delivery)
 		if len(cli) > 0 || (!defAfterInvalid && len(envs) > 0) {
 			if !vValsEq(t, got, want) {
@@ -439,4 +482,97 @@ func H_prec() {
 			vAssert(false, "C06: value is not command line, else first valid environment variable, else default")
 		}
 	}
+}
+
+// vDeclareTypedPtr: the same through BoolPtr, StringPtr, ... (the variable is the caller's).
+func vDeclareTypedPtr(app *Cli, t int, asOpt bool, def []vVal, env string, user *bool) func() []vVal {
+	switch t {
+	case tBool:
+		p := new(bool)
+		if asOpt {
+			app.BoolPtr(p, BoolOpt{Name: "x xx", Value: def[0].b, EnvVar: env, SetByUser: user, HideValue: true})
+		} else {
+			app.BoolPtr(p, BoolArg{Name: "X", Value: def[0].b, EnvVar: env, SetByUser: user, HideValue: true})
+		}
+		return func() []vVal { return []vVal{{b: *p}} }
+	case tString:
+		p := new(string)
+		if asOpt {
+			app.StringPtr(p, StringOpt{Name: "x xx", Value: def[0].s, EnvVar: env, SetByUser: user, HideValue: true})
+		} else {
+			app.StringPtr(p, StringArg{Name: "X", Value: def[0].s, EnvVar: env, SetByUser: user, HideValue: true})
+		}
+		return func() []vVal { return []vVal{{s: *p}} }
+	case tInt:
+		p := new(int)
+		if asOpt {
+			app.IntPtr(p, IntOpt{Name: "x xx", Value: def[0].i, EnvVar: env, SetByUser: user, HideValue: true})
+		} else {
+			app.IntPtr(p, IntArg{Name: "X", Value: def[0].i, EnvVar: env, SetByUser: user, HideValue: true})
+		}
+		return func() []vVal { return []vVal{{i: *p}} }
+	case tFloat:
+		p := new(float64)
+		if asOpt {
+			app.Float64Ptr(p, Float64Opt{Name: "x xx", Value: def[0].f, EnvVar: env, SetByUser: user, HideValue: true})
+		} else {
+			app.Float64Ptr(p, Float64Arg{Name: "X", Value: def[0].f, EnvVar: env, SetByUser: user, HideValue: true})
+		}
+		return func() []vVal { return []vVal{{f: *p}} }
+	case tStrings:
+		var d []string
+		for _, v := range def {
+			d = append(d, v.s)
+		}
+		p := new([]string)
+		if asOpt {
+			app.StringsPtr(p, StringsOpt{Name: "x xx", Value: d, EnvVar: env, SetByUser: user, HideValue: true})
+		} else {
+			app.StringsPtr(p, StringsArg{Name: "X", Value: d, EnvVar: env, SetByUser: user, HideValue: true})
+		}
+		return func() []vVal {
+			var out []vVal
+			for _, s := range *p {
+				out = append(out, vVal{s: s})
+			}
+			return out
+		}
+	case tInts:
+		var d []int
+		for _, v := range def {
+			d = append(d, v.i)
+		}
+		p := new([]int)
+		if asOpt {
+			app.IntsPtr(p, IntsOpt{Name: "x xx", Value: d, EnvVar: env, SetByUser: user, HideValue: true})
+		} else {
+			app.IntsPtr(p, IntsArg{Name: "X", Value: d, EnvVar: env, SetByUser: user, HideValue: true})
+		}
+		return func() []vVal {
+			var out []vVal
+			for _, i := range *p {
+				out = append(out, vVal{i: i})
+			}
+			return out
+		}
+	case tFloats:
+		var d []float64
+		for _, v := range def {
+			d = append(d, v.f)
+		}
+		p := new([]float64)
+		if asOpt {
+			app.Floats64Ptr(p, Floats64Opt{Name: "x xx", Value: d, EnvVar: env, SetByUser: user, HideValue: true})
+		} else {
+			app.Floats64Ptr(p, Floats64Arg{Name: "X", Value: d, EnvVar: env, SetByUser: user, HideValue: true})
+		}
+		return func() []vVal {
+			var out []vVal
+			for _, f := range *p {
+				out = append(out, vVal{f: f})
+			}
+			return out
+		}
+	}
+	return nil
 }
